@@ -62,6 +62,11 @@ def _binned_median(x, bins, x_min, x_max, counts):
 
 	halfway = 0
 	x_max -= x_min
+
+	# All values are identical so there is nothing to bin.
+	if x_max == 0:
+		return x_min
+
 	for i in range(n):
 		z = int((x[i] - x_min) / x_max * (n_bins - 1))
 		bins[z, 0] += counts[i]
@@ -120,7 +125,12 @@ def _integer_distances_and_histogram(X, Y, gamma, gamma_int, f, medians,
 			
 	# Find the minimum value and the number of bins needed to get there
 	i_min = int(math.floor(z_min)) #offset
-	bin_scale = int(math.floor(n_bins / (z_max - i_min))) #scale
+	# If every target column is equally far from every query column there is no
+	# range of scores to divide into bins.
+	if z_max > i_min:
+		bin_scale = int(math.floor(n_bins / (z_max - i_min))) #scale
+	else:
+		bin_scale = n_bins
 	offset = -i_min * bin_scale
 
 	for i in range(nq):
